@@ -55,10 +55,16 @@ def extract(repo):
     raw = body
     body = _strip(body)
     # --- redefined attribute: which arguments are forwarded
-    m = re.search(r"if\s*\(\s*_redefAttr\s*\)\s*\{\s*return\s+_redefAttr->STEPread\(([^;]*)\)\s*;", body)
+    rb = _body(body, "if( _redefAttr )")
+    m = re.search(r"_redefAttr->STEPread\(([^;]*)\)\s*;", rb)
     if not m:
         raise ValueError("redefined-attribute forwarding not found")
     redef_args = [a.strip() for a in m.group(1).split(",")]
+    # does the redeclared position take over what the redefining attribute reported?  (the instance reads
+    # attributes[i].Error(), i.e. the error of the redeclared position, not the value returned from here)
+    redef_reports = bool(re.search(r"_error\.AppendFromErrorArg\(\s*&\(\s*_redefAttr->Error\(\)\s*\)\s*\)\s*;\s*return\s+_error\.severity\(\)\s*;", rb))
+    if not redef_reports and not re.fullmatch(r"\s*return\s+_redefAttr->STEPread\([^;]*\)\s*;\s*", rb):
+        raise ValueError("redefined-attribute forwarding has an unknown shape")
     # --- the pre-check block
     m = re.search(r"switch\s*\(\s*c\s*\)\s*\{((?:\s*case\s*'.'\s*:)+)", body)
     if not m:
@@ -203,6 +209,8 @@ def extract(repo):
     L.append(f"def sevDerivedBad : Sev := {_sev(sev_derived_bad)}")
     L.append("/-- `strict` received by the redefining attribute: `none` = the caller's flag is forwarded -/")
     L.append(f"def redefStrict : Option Bool := {strict_arg(redef_args, attr_default)}")
+    L.append("/-- does a redeclared position take over the error of its redefining attribute?  (false: whatever the redefining attribute reports is dropped, the instance looks at the redeclared position's own, untouched error) -/")
+    L.append(f"def redefReportsError : Bool := {'true' if redef_reports else 'false'}")
     L.append("/-- `strict` received by `attributes[i].STEPread` inside `SDAI_Application_instance::STEPread` -/")
     L.append(f"def instAttrStrict : Option Bool := {'none' if inst_passes == 'strict' else '(some ' + attr_default + ')'}")
     L.append("/-- attribute severities at or below this one are merged into the instance's severity -/")
